@@ -5,7 +5,7 @@ import ast
 from dataclasses import dataclass, field
 
 from ..model import AnalysisError, dotted, norm_text, unparse, walk_no_nested
-from ..q import NONEXC, Fn, bool_atoms
+from ..q import NONEXC, Fn, bool_atoms, block_paths, subst_env
 from .common import AT4_API, AT5_API, SOCKET, fn_of
 
 LEVEL = "other"
@@ -419,23 +419,42 @@ def r5(ctx, modname):
             ok = rng_ok and norm_text(lc.elt) == f"self._zones[{lc.generators[0].target.id}]" and not lc.generators[0].ifs
         ctx.check(ok, R, "at5:ability:zones=range(start, start+count)", m, lp, f"ac_zones = [self._zones[i] for i in range({v}.start_zone, {v}.start_zone + {v}.zone_count)]", txt or norm_text(zv)[:160])
     else:
-        top = [s for s in lp.body if isinstance(s, ast.If)]
-        ctx.require(len(top) >= 1, f"{m.relpath}: AT4 ability association is no longer an if/elif/else chain")
-        i1 = top[0]
-        c1 = norm_text(i1.test) in (f"{v}.groups is not None",)
-        b1 = [s for s in i1.body if isinstance(s, ast.Assign)]
-        ok1 = c1 and len(b1) == 1 and isinstance(b1[0].value, ast.ListComp) and norm_text(b1[0].value.generators[0].iter) == f"{v}.groups" and norm_text(b1[0].value.elt) == f"self._zones[{b1[0].value.generators[0].target.id}]"
-        ctx.check(ok1, R, "at4:ability:1-bitmap-first", m, i1, f"first choice: the group bitmap ({v}.groups is not None -> zones of {v}.groups)", norm_text(i1.test))
-        i2 = i1.orelse[0] if len(i1.orelse) == 1 and isinstance(i1.orelse[0], ast.If) else None
-        ok2 = i2 is not None and norm_text(i2.test) in (f"len({f.params[1]}) == 1", f"1 == len({f.params[1]})")
-        b2 = [s for s in (i2.body if i2 else []) if isinstance(s, ast.Assign)]
-        ok2 = ok2 and len(b2) == 1 and norm_text(b2[0].value) in ("list(self._zones.values())", "[*self._zones.values()]")
-        ctx.check(ok2, R, "at4:ability:2-single-ac-gets-all", m, i2 or i1, "second choice: a single AC owns all zones", norm_text(i2.test) if i2 else "no elif")
-        b3 = [s for s in (i2.orelse if i2 else []) if isinstance(s, ast.Assign)]
-        ok3 = len(b3) == 1 and isinstance(b3[0].value, ast.ListComp)
-        txt = ""
-        if ok3:
-            lc = b3[0].value
-            r_ok, txt = _range_shape(ctx, m, lc.generators[0].iter, v)
-            ok3 = r_ok and norm_text(lc.elt) == f"self._zones[{lc.generators[0].target.id}]" and not lc.generators[0].ifs
-        ctx.check(ok3, R, "at4:ability:3-range(start, start+count)", m, (b3[0] if b3 else lp), f"last resort: range({v}.start_group, {v}.start_group + {v}.group_count)", txt or "missing")
+        # the value reaching zones= on every path through the loop body, with the conditions of that path (order-insensitive:
+        # what matters is which source is used under which combination of `groups is None` / `one AC`)
+        idx = lp.body.index(sts[0])
+        paths = [(lits, subst_env(zones_kw, env)) for lits, env, end in block_paths(lp.body[:idx]) if end == "fall"]
+        ctx.require(paths, f"{m.relpath}: no path reaches the AC construction")
+        g_none = f"{v}.groups is None"
+        one_ac = f"len({f.params[1]}) == 1"
+        seen = {}
+        for lits, zv in paths:
+            d = dict(lits)
+            if len(d) != len(set(lits)) or any(d[t] != pol for t, pol in lits):
+                continue  # contradictory literals: infeasible
+            if d.get(g_none) is False:
+                kind = "1-bitmap-first"
+            elif d.get(g_none) is True and d.get(one_ac) is True:
+                kind = "2-single-ac-gets-all"
+            elif d.get(g_none) is True and d.get(one_ac) is False:
+                kind = "3-range(start, start+count)"
+            else:
+                ctx.violation(R, "at4:ability:precedence", m, lp, f"zones chosen by: {g_none} ? (one AC ? all zones : start/count range) : the bitmap", f"a path with conditions {lits} reaches the construction")
+                continue
+            extra = [t for t in d if t not in (g_none, one_ac)]
+            txt = norm_text(zv)[:160]
+            if kind == "1-bitmap-first":
+                ok = isinstance(zv, ast.ListComp) and len(zv.generators) == 1 and not zv.generators[0].ifs and norm_text(zv.generators[0].iter) == f"{v}.groups" and norm_text(zv.elt) == f"self._zones[{norm_text(zv.generators[0].target)}]"
+                want = f"first choice: the group bitmap ({v}.groups is not None -> zones of {v}.groups)"
+            elif kind == "2-single-ac-gets-all":
+                ok = norm_text(zv) in ("list(self._zones.values())", "[*self._zones.values()]")
+                want = "second choice: a single AC owns all zones"
+            else:
+                ok = isinstance(zv, ast.ListComp) and len(zv.generators) == 1 and not zv.generators[0].ifs and norm_text(zv.elt) == f"self._zones[{norm_text(zv.generators[0].target)}]"
+                if ok:
+                    ok, txt = _range_shape(ctx, m, zv.generators[0].iter, v)
+                want = f"last resort: range({v}.start_group, {v}.start_group + {v}.group_count)"
+            seen[kind] = True
+            ctx.check(ok and not extra, R, f"at4:ability:{kind}", m, lp, want, (txt or "missing") + (f" under extra conditions {extra}" if extra else ""))
+        for kind in ("1-bitmap-first", "2-single-ac-gets-all", "3-range(start, start+count)"):
+            if kind not in seen:
+                ctx.violation(R, f"at4:ability:{kind}", m, lp, "the three sources of an AC's zones, in the documented precedence", "this case is never taken")
